@@ -568,15 +568,15 @@ PROPS = {
         "assumptions": ["len() is observed on a fresh iterator only (the property asks for the count up front)"],
     },
     "C20": {
-        "lean_modules": ["Dbg.Props.C20", "Dbg.Props.C20b", "Dbg.Props.C20c", "Dbg.Props.C20d", "Dbg.Props.C09c"],
-        "theorems": ["Export.dot_arrows_iff", "Export.dot_adjacency_at_both_ends", "Export.toDot_eq", "Json.C20_json_wellformed", "Json.natLit", "Json.strBody_escape", "Export.C20_json_writer_eq_document", "Export.C20_json_lists_every_node", "Export.C20_json_lists_every_link", "CompressGraph.C20_gfa_complete_after_recompress", "Export.gfa_complete_of_compress", "Export.gfa_no_duplicate", "Export.gfa_links_complete_ginv", "Export.edges_ports_nodup", "Export.gfa_link_sound", "Export.gfa_links_complete", "Export.gfa_segment", "Export.mem_allLinks"],
+        "lean_modules": ["Dbg.Props.C20", "Dbg.Props.C20b", "Dbg.Props.C20c", "Dbg.Props.C20d", "Dbg.Props.C20e", "Dbg.Props.C09c"],
+        "theorems": ["Serde.C20_kmer_text_injective", "Serde.C20_exts_text_injective", "Serde.C20_dna_text_injective", "Serde.C20_lmer_text_injective", "Serde.C20_baseGraph_text_injective", "Export.dot_arrows_iff", "Export.dot_adjacency_at_both_ends", "Export.toDot_eq", "Json.C20_json_wellformed", "Json.natLit", "Json.strBody_escape", "Export.C20_json_writer_eq_document", "Export.C20_json_lists_every_node", "Export.C20_json_lists_every_link", "CompressGraph.C20_gfa_complete_after_recompress", "Export.gfa_complete_of_compress", "Export.gfa_no_duplicate", "Export.gfa_links_complete_ginv", "Export.edges_ports_nodup", "Export.gfa_link_sound", "Export.gfa_links_complete", "Export.gfa_segment", "Export.mem_allLinks"],
         "partial": ["JSON: the writer modelled statement by statement (index tests, wrote_any flag, per-group comma test) is proved to emit exactly the document jsonDoc - arrays whose items are separated, never followed, by commas - for every graph (C20_json_writer_eq_document); the document is a JSON text in the sense of an inductive grammar (C20_json_wellformed; payload renderings and rest values assumed JSON values, keys escaped as serde_json does); every exported text is additionally parsed by serde_json in the correspondence; serde round trips are compared by execution. gfa_links_complete_ginv assumes the node-level invariant GInv, proved for the output of compress_kmers (gfa_complete_of_compress), of compress_graph without censoring (C20_gfa_complete_after_recompress) and of the sharded pipeline (C04_sharded_eq_direct); for hand-built graphs it is a decidable hypothesis"],
         "n_quick": 3000, "n_thorough": 200000,
         "nontrivial": lambda toks, impl: impl != "panic" and (toks[1] != "export" or toks[4].count(",") >= 1), "tags": _c20_tags,
         "shrink": _c20_shrink,
         "rule": "requests `export K stranded nodes rest`: GFA and JSON text of graphs from the pipeline (60%), hand-made empty / single-node / "
                 "link-free graphs (single and link-free nodes also on both sides of 256 bases, pipeline graphs with a 280-340-base read: `Debug` of a view stops printing bases there), pipeline graphs with dangling extension bits and removed nodes, with and without a `rest` object (keys with quotes, backslashes, control characters); to_gfa (file) must equal write_gfa, to_gfa_with_tags (file), to_dot (file) and `Debug` of every node are compared with the model; the JSON is additionally parsed with serde_json and its node and "
-                "link counts compared with the graph; `persist kmer|dna|exts|lmer|graph …`: serde_json round trips with equality and query "
+                "link counts compared with the graph; `persist kmer|dna|exts|lmer|graph …`: the text serde_json writes is compared with the model's (`Serde.*`; for graphs the `BaseGraph` text), and the round trip is observed with equality and query "
                 "comparison. Non-trivial = export of a graph with >= 2 nodes, or a persist request.",
         "trusted_base": ["serde / serde_json derive code (round trips are tested, not proved)", "Debug of DnaStringSlice (C15) renders the node sequence"],
         "assumptions": ["payload renderings are JSON values"],
